@@ -11,8 +11,8 @@ plus the API calls and environment steps that justify a rejoin.  The model is an
 `stepN cfg c e` is the list of states the member may be in after event `e` (empty = the code that
 exists cannot do this).  Three things the history does not show are left open and resolved by
 later events: whether a JoinGroup reply that raced with a subscription change was used or
-dropped, whether the heartbeat task declared the session expired, and whether the connection to
-a freshly found coordinator could be opened.
+dropped, whether the heartbeat task declared the session expired, and when (or whether) the
+connection to a freshly found coordinator came up.
 
 Member ids are naturals (0 = `UNKNOWN_MEMBER_ID`), node ids integers; `cfg` is the list of
 configured assignor names in preference order.
@@ -57,6 +57,7 @@ structure Core where
   mid : Nat := 0                         -- `member_id`
   gen : Int := -1                        -- `generation`
   coord : Option Int := none             -- `coordinator_id`
+  coordPending : Option Int := none      -- coordinator just found, `client.ready(it)` still under way
   noAssign : Bool := true                -- `subscription.assignment is None`
   rejoinFut : Bool := false              -- `_rejoin_needed_fut.done()`
   mdPending : Bool := false              -- a metadata change not yet used as the cause of a rejoin
@@ -68,6 +69,8 @@ structure Core where
   leaveSent : Bool := false              -- LeaveGroup sent since `stopCalled`
   closeCommits : Nat := 0                -- OffsetCommit attempts that failed since `stopCalled`
   commitAllow : Nat := 3                 -- … one per call site (auto-commit, revoke, finalisation) + user calls
+  prepared : Bool := false               -- `_performed_join_prepare`: the revoke step (with its commit) of this rejoin ran
+  userCommits : Bool := false            -- the user calls `commit()` himself: commits are not tied to the coordination loop
   stopped : Bool := false
   inflight : List (Nat × Req) := []
 deriving DecidableEq, Repr, Inhabited
@@ -131,8 +134,9 @@ def onReply (c : Core) (r : Req) (o : Out) : List Core :=
   | .findCoord =>
     match o with
     | .coordinator n =>
-      -- `client.ready(coordinator)` may fail (nothing is sent then): the lookup is repeated
-      if c.coord.isNone then [{ c with coord := some n }, c] else [c]
+      -- `coordinator_id` is set once `client.ready(coordinator)` has opened the connection (until
+      -- then `coordinator_dead()` finds nothing to mark); if that fails the lookup is repeated
+      if c.coord.isNone then [{ c with coordPending := some n }] else [c]
     | _ => [c]
   | .join =>
     if c.dirty then
@@ -143,7 +147,10 @@ def onReply (c : Core) (r : Req) (o : Out) : List Core :=
     match o with
     | .codes cs =>
       if isOk cs then
-        [{ c with gen := r.gen, mid := r.mid, noAssign := c.noAssign && c.dirty }]
+        -- `_on_join_complete` (and with it `_performed_join_prepare = False`) unless the
+        -- subscription changed meanwhile
+        [{ c with gen := r.gen, mid := r.mid, noAssign := c.noAssign && c.dirty,
+                  prepared := c.prepared && c.dirty }]
       else if cs = [25] ∨ cs = [22] then [resetGen (needRejoin c)]
       else if cs = [15] ∨ cs = [16] then [coordDead (needRejoin c)]
       else [needRejoin c]
@@ -185,34 +192,49 @@ def onRecv (c : Core) (r : Req) (o : Out) : List Core :=
   | .exc => [onExc c r]
   | _ => onReply c r o
 
+/-- `_send_req` goes to `coordinator_id`: the known coordinator, or the one just found — its
+    connection is up at the latest when the first request goes to it -/
+def coordFor (c : Core) (node : Int) : Bool :=
+  c.coord == some node || (c.coord.isNone && c.coordPending == some node)
+
+def newCoord (c : Core) (r : Req) : Option Int :=
+  if r.api != Api.findCoord && c.coord.isNone && c.coordPending == some r.node then some r.node else c.coord
+
 /-- may the member send `r` now?  (`_send_req` refuses without a coordinator; every request is
     built from the current identity) -/
 def sendOk (cfg : List String) (c : Core) (r : Req) : Bool :=
   match r.api with
   | .findCoord => c.coord.isNone && !c.closing
   | .join =>
-    c.coord == some r.node && r.mid == c.mid && r.protos == cfg &&
+    coordFor c r.node && r.mid == c.mid && r.protos == cfg &&
     (c.noAssign || c.rejoinFut || c.mdPending) &&
     !(c.joinOk.isSome && !c.excused) && !c.leaveSent
   | .sync =>
-    c.coord == some r.node && c.joinOk == some (r.gen, r.mid) && !c.leaveSent
+    coordFor c r.node && c.joinOk == some (r.gen, r.mid) && !c.leaveSent
   | .heartbeat =>
-    c.coord == some r.node && r.gen == c.gen && r.mid == c.mid && !c.leaveSent
+    coordFor c r.node && r.gen == c.gen && r.mid == c.mid && !c.leaveSent
   | .commit =>
-    c.coord == some r.node && r.gen == c.gen && r.mid == c.mid &&
+    coordFor c r.node && r.gen == c.gen && r.mid == c.mid &&
     -- while closing a failed commit is never retried by the same call site
-    (!c.closing || decide (c.closeCommits < c.commitAllow))
-  | .offsetFetch => c.coord == some r.node
+    (!c.closing || decide (c.closeCommits < c.commitAllow)) &&
+    -- the coordination loop commits periodically only while no rejoin is needed, and before a
+    -- rejoin only in the revoke step, which runs once per rejoin: a member whose rejoin failed
+    -- half-way (JoinGroup sent, no successful SyncGroup yet) rejoins, it does not go on committing
+    (c.closing || c.userCommits || !(c.noAssign || c.rejoinFut) || !c.prepared)
+  | .offsetFetch => coordFor c r.node
   | .leave =>
-    c.coord == some r.node && r.mid == c.mid && decide (0 < c.gen) && (c.closing || c.mayLeave)
+    coordFor c r.node && r.mid == c.mid && decide (0 < c.gen) && (c.closing || c.mayLeave)
 
 def onSend (c : Core) (id : Nat) (r : Req) : Core :=
-  let c := { c with inflight := (id, r) :: c.inflight }
+  let c := { c with inflight := (id, r) :: c.inflight, coord := newCoord c r,
+                    -- used up: by the first request to it, or by a new lookup (the connection failed)
+                    coordPending := if r.api == Api.findCoord || (c.coord.isNone && c.coordPending == some r.node)
+                                    then none else c.coordPending }
   match r.api with
   | .join =>
     -- a rejoin whose only cause is a metadata change: `_rejoin_needed_fut` is the done future
-    if c.noAssign || c.rejoinFut then { c with joinOk := none }
-    else { c with joinOk := none, mdPending := false, rejoinFut := true }
+    if c.noAssign || c.rejoinFut then { c with joinOk := none, prepared := true }
+    else { c with joinOk := none, mdPending := false, rejoinFut := true, prepared := true }
   | .sync => { c with rejoinFut := false, joinOk := none }
   | .leave => { c with leaveSent := c.closing }
   | _ => c
@@ -245,7 +267,7 @@ def stepN (cfg : List String) (c : Core) (e : Ev) : List Core :=
   | .subChange => [{ c with noAssign := true, dirty := true, excused := true, mayLeave := true }]
   | .mdChange => [{ c with mdPending := true }]
   | .pollIdle => [{ c with mayLeave := true }]
-  | .userCommit => [{ c with commitAllow := c.commitAllow + 1 }]
+  | .userCommit => [{ c with commitAllow := c.commitAllow + 1, userCommits := true }]
   | .stopCalled => if c.closing then [] else [{ c with closing := true }]
   | .stopReturned =>
     -- `_maybe_leave_group`: LeaveGroup is attempted whenever the member is in a generation and
